@@ -201,6 +201,62 @@ def module_order(sel: List[int]) -> bool:
     return True
 
 
+INIT_DIRS = ["a", "b/x", "c/y/z", "d", "e/v", "f/u/w"]  # directories (relative to the source directory) that hold an __init__.py
+_PERMS4 = None
+
+
+def _perm(n: int, idx: int):
+    import itertools
+
+    return list(itertools.islice(itertools.permutations(range(n)), idx, idx + 1))[0]
+
+
+def nearest_packages(sel: List[int]) -> bool:
+    """_get_nearest_init_dirs (the choice of the directory that is analysed when the source directory is no package
+    itself) does not depend on the order in which the file system lists the __init__.py files: for every set of up to
+    four package directories at depths 1-3 and every enumeration order the result is the set of the shallowest ones.
+
+    pre: len(sel) == SEL_LEN and fixed(sel)
+    post: _
+    """
+    import math
+    from pathlib import PurePosixPath
+
+    import safeds_stubgen.api_analyzer._get_api as GA
+
+    try:
+        cur = Cur()
+        n = 1 + rd(sel, cur, 4)
+        chosen = []
+        for _ in range(n):
+            d = INIT_DIRS[rd(sel, cur, len(INIT_DIRS))]
+            if d in chosen:
+                raise OutOfRange
+            chosen.append(d)
+        if chosen != sorted(chosen):
+            raise OutOfRange  # the set is what matters; its order is the permutation below
+        order = _perm(n, rd(sel, cur, math.factorial(n)))
+    except OutOfRange:
+        return True
+    inits = [PurePosixPath("/src") / chosen[i] / "__init__.py" for i in order]
+
+    class Root:
+        def glob(self, pattern):
+            assert pattern == "./**/__init__.py", pattern
+            return iter(inits)
+
+    got = GA._get_nearest_init_dirs(Root())
+    note("oracle")
+    with untraced():
+        depth = min(len(d.split("/")) for d in chosen)
+        want = sorted(str(PurePosixPath("/src") / d) for d in chosen if len(d.split("/")) == depth)
+        labels = []
+        if sorted(str(g) for g in got) != want:
+            labels.append("nearest-package-directories-depend-on-enumeration-order" if set(map(str, got)) != set(want)
+                          else "nearest-package-directory-listed-twice")
+    return judge(labels)
+
+
 def CANDIDATES(func: str):
     from harness.zoo import all_vectors
 
